@@ -6,12 +6,13 @@ CONSTANTS
   BatchSize = 2
   ChanCap = 1
   InitShards = 2
-  Targets <- TargetsOne
+  Targets <- TargetsTwo
   MaxRec = 1
   MaxFatal = 1
   Timer = TRUE
   EmitMode = "none"
   Record = FALSE
-INVARIANTS TypeOK
+  Eager = FALSE
+INVARIANTS TypeOK PerSeriesOrder NoDup NoDropLeak Conservation ShardFifo Complete
 PROPERTIES Terminates
 CHECK_DEADLOCK FALSE
